@@ -233,7 +233,8 @@ def run_cfg(ctx, p, cfg):
         r.require(sep["routing_sep"] is not None and len(set(sep["routing_seps"])) == 1, "routing-uses-one-separator", detail="separators in add/find: %s" % sep["routing_seps"])
         s = sep["routing_sep"] or ""
         r.require(sep["check_char"] == s[:1] and len(set(s)) == 1, "check-compares-separator-char", detail="check_logger_name compares with %r; routing separator %r" % (sep["check_char"], s))
-        r.require(set(sep["check_consts"]) <= {0, 1, len(s)} and len(s) in sep["check_consts"], "check-streak-equals-separator-length", detail="streak constants %s vs len(SEP)=%d" % (sorted(set(sep["check_consts"])), len(s)))
+        okl, why = name_language_ok(p)
+        r.require(okl, "check-streak-equals-separator-length", detail="runs of the separator character are accepted exactly at length len(SEP)=%d: %s" % (len(s), why))
 
     with ctx.rule("V6", "the language the name check accepts", cfg) as r:
         # check_logger_name is read as a finite automaton over {separator character, any other character} and compared, state by
@@ -263,6 +264,23 @@ def run_cfg(ctx, p, cfg):
             okp = bool(payload) and payload[0][2] == "InvalidLoggerName" and any(deep_strip(y) == ("param", 1) for y in walk(payload[0]))
             r.require(okp, "err-names-input#%d" % n_, fn=f, detail="error is InvalidLoggerName(name.to_owned())")
 
+
+
+def name_language_ok(p):
+    """the name check accepts exactly the SEP-separated names of the routing code: the automaton comparison of V6, as a premise"""
+    from rules import namecheck
+    try:
+        nc = name_checker(p)
+        f = p.fn_loops(nc.callee)
+        sep = separator_facts(p)
+        sepstr = sep["routing_sep"] or "::"
+        if len(set(sepstr)) != 1:
+            return False, "separator %r is not one repeated character" % sepstr
+        res = namecheck.compare(f, sepstr[0], len(sepstr))
+        bad = [d for d, ok in res if not ok]
+        return (not bad and len(res) >= 9), ("%d transitions agree with the reference for separator %r" % (len(res), sepstr) if not bad else "disagrees: %s" % bad[:2])
+    except (ShapeUnrecognised, AnchorMissing) as e:
+        return False, str(e)
 
 def _field_ty(p, adt_short, field):
     for a in (CONFIG, ROOT, LOGGER, APPENDER):
